@@ -188,6 +188,20 @@ fn interesting_f64(ty: u8) -> BoxedStrategy<f64> {
     .boxed()
 }
 
+
+/// integer tokens that alias an in-range value modulo 2^32 / 2^63 / 2^64 (what a narrowing cast or a wrapped
+/// conversion would turn into a valid number), and integers right at those powers of two
+fn aliasing_integer(ty: u8) -> BoxedStrategy<String> {
+    let (lo, hi) = RANGES[ty as usize];
+    ((lo.ceil() as i64 - 2)..=(hi.floor() as i64 + 2), 0usize..9, any::<bool>())
+        .prop_map(|(n, k, neg)| {
+            let base: i128 = [0i128, 1 << 32, 1 << 63, 1 << 64, (1 << 64) - 1 + 1, 1 << 31, 1 << 53, 1i128 << 65, 1 << 16][k];
+            let v = if neg { n as i128 - base } else { n as i128 + base };
+            format!("{}", v)
+        })
+        .boxed()
+}
+
 fn text_for(ty: u8) -> BoxedStrategy<String> {
     let num = interesting_f64(ty);
     prop_oneof![
@@ -227,6 +241,7 @@ fn text_for(ty: u8) -> BoxedStrategy<String> {
                 _ => format!("{}{}.{}1", sign, body.split('.').next().unwrap_or("0"), z),                 // tiny fraction after many zeros
             }
         }),
+        1 => aliasing_integer(ty),
         3 => "[+-]?[0-9]{0,4}(\\.[0-9]{0,4})?([eE][+-]?[0-9]{1,3})?",
         2 => proptest::sample::select(vec![
             "", " ", "+", "-", ".", "-.", "e5", "1e", "inf", "-inf", "+inf", "infinity", "-Infinity", "INF", "nan", "NaN", "-nan", "+NaN",
@@ -263,6 +278,7 @@ fn json_for(ty: u8) -> BoxedStrategy<String> {
                 _ => format!("{}{}{}", "\n".repeat(n.min(50)), t, "\t".repeat(n.min(50))),
             }
         }),
+        2 => aliasing_integer(ty),
         2 => "-?(0|[1-9][0-9]{0,4})(\\.[0-9]{1,4})?([eE][+-]?[0-9]{1,3})?",
         2 => proptest::sample::select(vec![
             "null", "true", "NaN", "nan", "Infinity", "-Infinity", "inf", "1e999", "-1e999", "1e-999", "\"\"", "\"90\"", "[]", "{}", "", " ",
